@@ -298,6 +298,13 @@ func (p *parser) parseByteSequence() ([]byte, error) {
 		return nil, errors.New("structuredheader: missing closing '*'")
 	}
 	s := p.getString(len)
+	for i := 0; i < len; i++ {
+		// encoding/base64 silently skips CR and LF, which are not in the
+		// base64 alphabet the header grammar allows.
+		if c := s[i]; !isAlpha(c) && !isDigit(c) && c != '+' && c != '/' && c != '=' {
+			return nil, fmt.Errorf("structuredheader: invalid character %q in byte sequence", c)
+		}
+	}
 	enc := base64.StdEncoding
 	if len%4 != 0 {
 		// Allow unpadded encoding.
